@@ -1,7 +1,148 @@
-(** C20 — storage is a bounded flat byte array.  Property theorems only. *)
-From Akita Require Import Lib.Base C20.Model.
+(** C20 — storage is a bounded flat byte array.  Property theorems only.
+
+    [run false] is the model of the current mem.Storage (Read, Write,
+    SaveCheckpoint, LoadCheckpoint; uint64 arithmetic with explicit wrap, the
+    unit map as an association list); [run_flat] is a zero-initialised flat
+    array of [cap] bytes kept as a write log, in which an access with
+    addr + len > cap (computed without wrap) is an error that leaves the
+    state unchanged.  [wf_op] only says that addresses and lengths are 64-bit
+    values. *)
+From Coq Require Import Permutation.
+From Akita Require Import Lib.Base C20.Model C20.Proofs1 C20.Proofs2 C20.Proofs3 C20.Proofs4 C20.Proofs5 C20.Exec.
 Local Open Scope N_scope.
 
-Theorem c20_placeholder : new_storage 1 1 = mk_storage 1 1 [].
-Proof. reflexivity. Qed.
-Print Assumptions c20_placeholder.
+(** For every capacity, unit size > 0 and history of reads, writes, checkpoint
+    round trips, truncated and re-shaped checkpoint loads: every result equals
+    that of the flat array (reads return the bytes last written, out-of-range
+    accesses fail), and the final contents are the flat array's contents at
+    every address. *)
+Theorem c20_flat : forall cap unit ops,
+  0 < unit -> unit < two64 -> cap < two64 -> Forall wf_op ops ->
+  map proj (snd (run false (new_storage cap unit) ops)) = map Some (snd (run_flat cap unit [] ops)) /\
+  (forall a, contents (fst (run false (new_storage cap unit) ops)) a =
+             flat_get (fst (run_flat cap unit [] ops)) a).
+Proof. exact flat_main. Qed.
+Print Assumptions c20_flat.
+
+(** ... regardless of the allocation unit size. *)
+Theorem c20_unit_size_irrelevant : forall cap u1 u2 ops,
+  0 < u1 -> u1 < two64 -> 0 < u2 -> u2 < two64 -> cap < two64 ->
+  Forall wf_op ops -> forallb shape_free ops = true ->
+  map proj (snd (run false (new_storage cap u1) ops)) = map proj (snd (run false (new_storage cap u2) ops)) /\
+  (forall a, contents (fst (run false (new_storage cap u1) ops)) a =
+             contents (fst (run false (new_storage cap u2) ops)) a).
+Proof. exact unit_irrelevant. Qed.
+Print Assumptions c20_unit_size_irrelevant.
+
+(** Any access that touches an address at or beyond the capacity — including
+    ranges whose end wraps around 2^64, since the sum is taken in N — is an
+    error and returns the very same storage. *)
+Theorem c20_out_of_range_errors : forall st addr len data,
+  addr < two64 -> len < two64 -> lenN data < two64 ->
+  (s_cap st < addr + len -> read false st addr len = (st, RErr)) /\
+  (s_cap st < addr + lenN data -> write false st addr data = (st, RErr)).
+Proof.
+  intros st addr len data Ha Hl Hd. split; intro H; [apply read_err|apply write_err]; assumption.
+Qed.
+Print Assumptions c20_out_of_range_errors.
+
+(** In range, a read returns the stored bytes and changes no contents; a write
+    changes exactly the addressed bytes. *)
+Theorem c20_in_range : forall st addr len data, Inv st ->
+  (addr + len <= s_cap st ->
+     exists st', read false st addr len = (st', ROk (map (contents st) (seqN addr len))) /\
+                 Inv st' /\ forall a, contents st' a = contents st a) /\
+  (addr + lenN data <= s_cap st ->
+     exists st', write false st addr data = (st', ROk []) /\ Inv st' /\
+                 forall a, contents st' a =
+                   if (addr <=? a) && (a <? addr + lenN data) then nth (N.to_nat (a - addr)) data 0
+                   else contents st a).
+Proof.
+  intros st addr len data I. split; intro H.
+  - destruct (read_ok st addr len I H) as [st' [R [I' [_ C]]]]. eauto.
+  - destruct (write_ok st addr data I H) as [st' [R [I' [_ C]]]]. exists st'. auto.
+Qed.
+Print Assumptions c20_in_range.
+
+(** Every state reached by a history satisfies the invariant used above. *)
+Theorem c20_reachable_inv : forall cap unit ops,
+  0 < unit -> unit < two64 -> cap < two64 -> Forall wf_op ops ->
+  Inv (fst (run false (new_storage cap unit) ops)).
+Proof. exact run_inv. Qed.
+Print Assumptions c20_reachable_inv.
+
+(** Checkpoint: whatever order the unit map is ranged over, the stream is the
+    same; loading it into a fresh storage of the same shape succeeds and
+    reproduces the contents at every address (and saves to the same stream). *)
+Theorem c20_checkpoint_roundtrip : forall st iter, Inv st -> Permutation iter (s_data st) ->
+  save_iter iter st = save st /\
+  exists st', load (new_storage (s_cap st) (s_unit st)) (save_iter iter st) = Some st' /\
+              Inv st' /\ s_cap st' = s_cap st /\ s_unit st' = s_unit st /\
+              (forall a, contents st' a = contents st a) /\
+              save st' = save st.
+Proof. exact ckpt_roundtrip. Qed.
+Print Assumptions c20_checkpoint_roundtrip.
+
+(** A strict prefix of a checkpoint stream and a stream with another shape
+    header are rejected (the storage is left as it was: [load] returns None). *)
+Theorem c20_bad_stream_rejected : forall st, Inv st ->
+  (forall k, (k < length (save st))%nat -> load st (firstn k (save st)) = None) /\
+  (forall c u rest, c < two64 -> u < two64 -> (c =? s_cap st) && (u =? s_unit st) = false ->
+     load st (put_u64 c ++ put_u64 u ++ rest) = None).
+Proof.
+  intros st I. split.
+  - intros k Hk. apply load_trunc; assumption.
+  - intros. apply load_other_shape; assumption.
+Qed.
+Print Assumptions c20_bad_stream_rejected.
+
+(** Regression lemmas for the code before fix c7cb86be ([run true]). *)
+Theorem c20_at_capacity_old_refuted :
+  let '(st, outs) := run true (new_storage 16 8) [OWrite 16 [9]; ORead 16 1] in
+  outs = [BRes (ROk []); BRes (ROk [9])] /\
+  snd (run_flat 16 8 [] [OWrite 16 [9]; ORead 16 1]) = [FErr; FErr] /\
+  snd (run false (new_storage 16 8) [OWrite 16 [9]; ORead 16 1]) = [BRes RErr; BRes RErr].
+Proof. exact old_at_capacity. Qed.
+Print Assumptions c20_at_capacity_old_refuted.
+
+Theorem c20_spanning_old_refuted :
+  let ops := [OWrite 6 [1; 2; 3; 4; 5; 6; 7; 8]; ORead 0 10] in
+  snd (run true (new_storage 10 4) ops) = [BRes RErr; BRes (ROk [0; 0; 0; 0; 0; 0; 1; 2; 3; 4])] /\
+  snd (run_flat 10 4 [] ops) = [FErr; FOk [0; 0; 0; 0; 0; 0; 0; 0; 0; 0]] /\
+  snd (run false (new_storage 10 4) ops) = [BRes RErr; BRes (ROk [0; 0; 0; 0; 0; 0; 0; 0; 0; 0])].
+Proof. exact old_spanning. Qed.
+Print Assumptions c20_spanning_old_refuted.
+
+Theorem c20_wrap_old_refuted :
+  let ops := [ORead 18446744073709551612 8] in
+  snd (run true (new_storage 100 16) ops) = [BRes (ROk [0; 0; 0; 0; 0; 0; 0; 0])] /\
+  snd (run_flat 100 16 [] ops) = [FErr] /\
+  snd (run false (new_storage 100 16) ops) = [BRes RErr].
+Proof. exact old_wrap. Qed.
+Print Assumptions c20_wrap_old_refuted.
+
+(** The predicate evaluated on the implementation's observed outputs
+    ([Exec.holds_on], which only uses the flat array) follows from agreement
+    with the model. *)
+Theorem c20_model_agreement_implies_property : forall c, wf_case c ->
+  check_case c = true -> holds_on c = true.
+Proof. exact check_implies_holds. Qed.
+Print Assumptions c20_model_agreement_implies_property.
+
+(** Non-vacuity: a history across unit boundaries with an access at the
+    capacity, a wrapping read and a checkpoint in the middle. *)
+Example c20_nonvacuous :
+  let ops := [OWrite 5 [1; 2; 3; 4; 5; 6]; ORead 3 10; OWrite 11 [7; 8; 9]; OCkpt;
+              ORead 18446744073709551612 8; ORead 0 13; OLoadTrunc 30; ORead 12 1] in
+  Forall wf_op ops /\
+  map proj (snd (run false (new_storage 13 4) ops)) =
+    [Some (FOk []); Some (FOk [0; 0; 1; 2; 3; 4; 5; 6; 0; 0]); Some FErr; Some (FOk []);
+     Some FErr; Some (FOk [0; 0; 0; 0; 0; 1; 2; 3; 4; 5; 6; 0; 0]); Some FErr; Some (FOk [0])] /\
+  Inv (fst (run false (new_storage 13 4) ops)).
+Proof.
+  intro ops.
+  assert (W : Forall wf_op ops) by (repeat constructor).
+  split; [exact W|split].
+  - vm_compute. reflexivity.
+  - exact (run_inv 13 4 ops eq_refl eq_refl eq_refl W).
+Qed.
